@@ -310,7 +310,7 @@ def run(tape, prop, tier):
     if prop == 'C16' and tape.chance(1, 12, 'app_layer'):
         return run_app_layer(tape, r)
     adversarial = prop == 'C18' or tape.chance(1, 6, 'adversarial')
-    max_redirect = tape.choice((20, 5, 2, 1, 0), 'max_redirect') if adversarial else tape.choice((20, 5, 3), 'max_redirect')
+    max_redirect = tape.choice((20, 5, 2, 1, 0, 32, 45), 'max_redirect') if adversarial else tape.choice((20, 5, 3), 'max_redirect')
     use_cookies = tape.chance(3, 4, 'cookies')
     opt_login = None
     if tape.chance(1, 3 if prop == 'C18' else 4, 'opt_login'):
@@ -587,7 +587,9 @@ def run(tape, prop, tier):
             h.expected = None
             # ('[fd00::6%a b]': ipaddress accepts any text as the zone of an IPv6 address; a listener answers at that address, so
             # whatever the client makes of it reaches the request oracle)
-            bad = tape.choice(('http://[bad', 'http://', '::::', 'http://a.test:99999/', '', 'http://[fd00::6%a b]/landing', 'http://[fd00::6%a b]:80/x?y'), 'badloc')
+            bad = tape.choice(('http://[bad', 'http://', '::::', 'http://a.test:99999/', '', 'http://[fd00::6%a b]/landing', 'http://[fd00::6%a b]:80/x?y',
+                               # percent-encoded delimiters and line breaks in the HOST part: not a host name at all
+                               'http://b.test%0D%0AX-Smuggled/y', 'http://b.test%20x/', 'http://a.test%2Fevil/', 'http://a.test%3A8080/', 'http://c.test%00/'), 'badloc')
             redirect(tape.choice((301, 302, 307), 'redir.code'), None, raw_location=bad)
             h.expected = None
         elif strategy == 'perpetual_401':
